@@ -227,6 +227,113 @@ pub fn check_stream(c: &StreamCase) -> CaseResult {
         .label_if(claims.is_empty(), "no_claims"))
 }
 
+// ---------------------------------------------------------------------------------------------
+// VisualVoting: best-fit voting on feature distances first, Hungarian voting on the rest
+
+#[derive(Clone, Debug, Serialize, Deserialize)]
+pub struct VisualStream {
+    /// (query, track, positional weight, feature distance)
+    pub items: Vec<(u8, u8, Option<f32>, Option<f32>)>,
+    pub threshold: f32,
+    pub min_votes: usize,
+    pub order: Vec<u32>,
+}
+
+pub fn check_visual_stream(c: &VisualStream) -> CaseResult {
+    use similari::trackers::sort::VotingType;
+    use similari::trackers::visual_sort::observation_attributes::VisualObservationAttributes;
+    use similari::trackers::visual_sort::voting::VisualVoting;
+    let mut idx: Vec<usize> = (0..c.items.len()).collect();
+    idx.sort_by_key(|&i| (c.order.get(i).copied().unwrap_or(0), i));
+    let stream: Vec<ObservationMetricOk<VisualObservationAttributes>> = idx.iter().map(|&i| {
+        let (q, t, a, f) = c.items[i];
+        ObservationMetricOk::new(qid(q), tid(t), a, f)
+    }).collect();
+    let res = VisualVoting::new(c.threshold, f32::MAX, c.min_votes).winners(stream);
+    // reference claims
+    let largest = c.items.iter().filter_map(|x| x.3).fold(f64::NEG_INFINITY, |m, d| m.max(d as f64));
+    let mut groups: BTreeMap<(u64, u64), Vec<f64>> = BTreeMap::new();
+    for (q, t, _, f) in &c.items {
+        if let Some(d) = f {
+            groups.entry((qid(*q), tid(*t))).or_default().push(*d as f64);
+        }
+    }
+    let claims: BTreeMap<(u64, u64), f64> = groups.into_iter().filter(|(_, v)| v.len() >= c.min_votes).map(|(k, v)| (k, v.iter().map(|d| largest - d).sum())).collect();
+    // ties make the outcome order dependent: only structural assertions then
+    let ws: Vec<f64> = claims.values().cloned().collect();
+    let mut tie = false;
+    for i in 0..ws.len() {
+        for j in i + 1..ws.len() {
+            if (ws[i] - ws[j]).abs() <= 1e-3 {
+                tie = true;
+            }
+        }
+    }
+    let mut used = std::collections::BTreeSet::new();
+    for (q, v) in &res {
+        ensure!(v.len() == 1, "visual-voting-shape", "query {} has {} winners", q, v.len());
+        let (w, _) = v[0];
+        if w != *q {
+            ensure!(used.insert(w), "visual-voting-track-twice", "track {} awarded to two queries", w);
+        }
+    }
+    let claimants: std::collections::BTreeSet<u64> = claims.keys().map(|k| k.0).collect();
+    let mut taken = std::collections::BTreeSet::new();
+    for q in &claimants {
+        let v = match res.get(q) {
+            Some(v) => v,
+            None => return Err(Fail::new("visual-voting-missing-claimant", format!("query {} has an appearance claim but no result entry", q))),
+        };
+        let (w, vt) = v[0];
+        ensure!(matches!(vt, VotingType::Visual), "visual-voting-type", "query {} has an appearance claim but is resolved positionally", q);
+        if tie {
+            continue;
+        }
+        // its heaviest claim, honoured iff nobody outweighs it there
+        let (bt, bw) = claims.iter().filter(|(k, _)| k.0 == *q).map(|(k, w)| (k.1, *w)).fold((0u64, f64::NEG_INFINITY), |m, x| if x.1 > m.1 { x } else { m });
+        let outweighed = claims.iter().any(|(k, w)| k.1 == bt && k.0 != *q && *w > bw);
+        if outweighed {
+            ensure!(w == *q, "visual-voting-loser-attached", "query {} lost track {} to a heavier claimant but is given {}", q, bt, w);
+        } else {
+            ensure!(w == bt, "visual-voting-claim-ignored", "query {}'s heaviest claim (track {}, weight {}) is not outweighed but it is given {}", q, bt, bw, w);
+            taken.insert(bt);
+        }
+    }
+    // positional part: claim-free queries on tracks not taken by appearance, gated by the threshold
+    for (q, v) in &res {
+        if claimants.contains(q) {
+            continue;
+        }
+        let (w, vt) = v[0];
+        ensure!(matches!(vt, VotingType::Positional), "visual-voting-type", "query {} has no appearance claim but is reported as visual", q);
+        if w != *q {
+            ensure!(!taken.contains(&w) || tie, "visual-voting-taken-track", "query {} is given track {} which was taken by appearance", q, w);
+            let best = c.items.iter().filter(|x| qid(x.0) == *q && tid(x.1) == w).filter_map(|x| x.2).fold(f32::NEG_INFINITY, f32::max);
+            ensure!(best >= c.threshold - 2e-6, "visual-voting-below-gate", "query {} is given track {} with positional weight {} below the threshold {}", q, w, best, c.threshold);
+        }
+    }
+    let contested = {
+        let mut by_t: BTreeMap<u64, usize> = BTreeMap::new();
+        for (k, _) in &claims {
+            *by_t.entry(k.1).or_default() += 1;
+        }
+        by_t.values().any(|n| *n >= 2)
+    };
+    Ok(CaseOk::new(contested || (!claimants.is_empty() && res.len() > claimants.len())).label_if(contested, "contested_track").label_if(tie, "ties"))
+}
+
+fn visual_stream() -> impl Strategy<Value = VisualStream> {
+    (1u8..=5, 1u8..=5).prop_flat_map(|(nq, nt)| {
+        (
+            proptest::collection::vec((0..nq, 0..nt, prop_oneof![1 => Just(None), 2 => (0.0f32..1.0).prop_map(Some)], prop_oneof![2 => Just(None), 3 => (0.0f32..2.0).prop_map(Some)]), 0..30),
+            prop_oneof![Just(0.3f32), 0.05f32..0.9],
+            1usize..=3,
+            proptest::collection::vec(any::<u32>(), 30),
+        )
+            .prop_map(|(items, threshold, min_votes, order)| VisualStream { items, threshold, min_votes, order })
+    })
+}
+
 fn dist() -> impl Strategy<Value = Option<f32>> {
     prop_oneof![
         1 => Just(None),
@@ -281,6 +388,7 @@ pub fn run(env: &Env, rep: &Report) {
     par_generated(rep, "streams", stream_case, env.tier.pick(1_500_000, 30_000_000), workers(), check_stream);
     // Hungarian voting: structural contract (optimality is C02's business; same checker)
     par_generated(rep, "hungarian", crate::props::c02::random_matrix, env.tier.pick(600_000, 8_000_000), workers(), crate::props::c02::check_matrix);
+    par_generated(rep, "visual-voting", visual_stream, env.tier.pick(600_000, 8_000_000), workers(), check_visual_stream);
     let perms = small_stream_permutations(rep.seed, env.tier.pick(30_000, 400_000));
     run_enumerated(rep, "all-permutations", perms.into_iter(), check_stream);
 }
@@ -289,6 +397,7 @@ pub fn replay(sub: &str, case: Value) -> Option<CaseResult> {
     match sub {
         "streams" | "all-permutations" => Some(replay_case(case, check_stream, sub)),
         "hungarian" => Some(replay_case(case, crate::props::c02::check_matrix, sub)),
+        "visual-voting" => Some(replay_case(case, check_visual_stream, sub)),
         _ => None,
     }
 }
